@@ -398,6 +398,10 @@ def main():
     import extract_fields
     if write_if_changed(os.path.join(GEN, 'Fields.lean'), extract_fields.render()):
         print('extract_fields: Gen/Fields.lean rewritten')
+    # the opaque-coded protocol names of the hello extensions (tools/extract_tlsext.py)
+    import extract_tlsext
+    if write_if_changed(os.path.join(GEN, 'TlsExt.lean'), extract_tlsext.render()):
+        print('extract_tlsext: Gen/TlsExt.lean rewritten')
 
 
 if __name__ == '__main__':
